@@ -472,35 +472,46 @@ func c08Rows() []c08Row {
 			return p
 		}},
 		{"size<=65536words:SDES", false, func(t *rapid.T, s string) m.Packet {
-			// 31 chunks x items of 255 octets; each item is 257 octets
-			items := pick(s, 1000, 1019, 1021, 1300)
 			p := m.Packet{Kind: m.KSDES, SDES: &m.SDES{}}
-			per := (items + 30) / 31
-			left := items
-			for c := 0; c < 31 && left > 0; c++ {
-				ch := m.SDESChunk{Source: uint32(c)}
-				for i := 0; i < per && left > 0; i++ {
-					ch.Items = append(ch.Items, m.SDESItem{Type: 2, Text: textN(t, 255)})
-					left--
+			if s == "far" {
+				// 31 chunks x items of 255 octets; each item is 257 octets
+				items, per := 1300, 42
+				for c := 0; c < 31 && items > 0; c++ {
+					ch := m.SDESChunk{Source: uint32(c)}
+					for i := 0; i < per && items > 0; i++ {
+						ch.Items = append(ch.Items, m.SDESItem{Type: 2, Text: textN(t, 255)})
+						items--
+					}
+					p.SDES.Chunks = append(p.SDES.Chunks, ch)
 				}
-				p.SDES.Chunks = append(p.SDES.Chunks, ch)
+				return p
 			}
+			// one chunk: 4 (source) + 1019 x 257 + (2 + L) + terminator, padded to a word; with
+			// L = 250 the packet is exactly 262144 octets (length field 65535), L = 251 one word more
+			ch := m.SDESChunk{Source: 7}
+			for i := 0; i < 1019; i++ {
+				ch.Items = append(ch.Items, m.SDESItem{Type: 2, Text: textN(t, 255)})
+			}
+			ch.Items = append(ch.Items, m.SDESItem{Type: 3, Text: textN(t, pick(s, 246, 250, 251, 0))})
+			p.SDES.Chunks = []m.SDESChunk{ch}
 			return p
 		}},
 		{"size<=65536words:CCFB", false, func(t *rapid.T, s string) m.Packet {
-			blocks := pick(s, 7, 7, 8, 12)
+			// 12 + sum(8 + 2n) octets: seven blocks of 16384 metric blocks and an eighth of 16346 make
+			// exactly 262144 octets (length field 65535); 16348 in the eighth is one word more
+			blocks := pick(s, 8, 8, 8, 12)
 			p := m.Packet{Kind: m.KCCFB, CCFB: &m.CCFB{Sender: 1, Timestamp: 2}}
 			for b := 0; b < blocks; b++ {
 				n := 16384
-				if s != "above" && s != "far" && b == blocks-1 {
-					n = 16000
+				if s != "far" && b == blocks-1 {
+					n = pick(s, 16344, 16346, 16348, 0)
 				}
 				p.CCFB.Blocks = append(p.CCFB.Blocks, m.CCFBBlock{SSRC: uint32(b), BeginSeq: 0, Metrics: make([]m.CCFBMetric, n)})
 			}
 			return p
 		}},
 		{"size<=65536words:XR", false, func(t *rapid.T, s string) m.Packet {
-			n := pick(s, 65530, 65533, 65534, 80000) // receipt times: 4 octets each; block = 12 + 4n, packet = 8 + block
+			n := pick(s, 65530, 65531, 65532, 80000) // receipt times: 4 octets each; block = 12 + 4n, packet = 8 + block: 65531 => 262144 octets
 			b := m.XRBlock{BT: m.XRPRT, T: 1, SSRC: 5, Times: make([]uint32, n)}
 			return m.Packet{Kind: m.KXR, XR: &m.XR{Sender: 9, Blocks: []m.XRBlock{b}}}
 		}},
